@@ -47,13 +47,13 @@ def _reg_spec():
 def _builder_ops(depth=0):
     name = st.sampled_from(["a", "b", "c", "reg", "x0"])
     add = st.tuples(st.just("add"), name, _reg_spec(),
-                    st.one_of(st.none(), st.none(), st.integers(0, 24))).map(list)
+                    gens.weighted((2, st.none()), (1, st.integers(0, 24)))).map(list)
     if depth >= 2:
         return st.lists(add, min_size=1, max_size=3)
     sub = st.deferred(lambda: _builder_ops(depth + 1))
     cluster = st.tuples(st.just("cluster"), name, sub).map(list)
     index = st.tuples(st.just("index"), st.integers(0, 3), sub).map(list)
-    return st.lists(st.one_of(add, add, cluster, index), min_size=1, max_size=4)
+    return st.lists(gens.weighted((3, add), (1, cluster), (1, index)), min_size=1, max_size=4)
 
 
 @st.composite
